@@ -181,14 +181,18 @@ def _u10_from_bulk_rate_point(
         )
 
         try:
+            # Note: arguments are passed positionally. With keyword arguments the call
+            # inside this jitted try block always ends in the except branch (numba).
             u10 = numba_newton_raphson(
                 _u10_iteration_function,
                 u10,
                 args,
                 (0, np.inf),
-                atol=atol,
-                rtol=rtol,
-                numerical_stepsize=numerical_stepsize,
+                100,  # max_iterations
+                True,  # aitken_acceleration
+                atol,
+                rtol,
+                numerical_stepsize,
             )
         except:
             u10 = np.nan
